@@ -22,6 +22,7 @@ import time
 
 from .c04m import ExecC
 from .c15 import one_fn, tok
+from .c05m import dump_core_light
 from .c18m import dump_time_light
 from .common import EXIT_INCONCLUSIVE, EXIT_OK, EXIT_VIOLATION, LOGS, REPLAYS, REPO, STABLE, TARGET, VERIF, env_offline, match_known, run, say
 from .mir import Panic, State, Unsupported, Val, vagg, vbool, venum, vint, vopaque
@@ -224,6 +225,41 @@ def run_property(prop, cfg, tier, known, only=None):
         res["samples"].append(sample)
         say(f"  [{unit:>20}] sites={len(sites)} eviction outside TimerFuture::poll: {gone_ok}")
 
+        unit = "request_state_no_cycle"
+        sample = {"unit": unit, "what": "CapabilityContext::request_from_shell and its resolve callback (non-inlined MIR of crux_core): how the callback refers to the future's shared state", "queries": []}
+        cyc_failed = None
+        try:
+            core_mir, err2, _ = dump_core_light(prop)
+            if core_mir is None:
+                raise Unsupported("MIR dump of crux_core failed: " + err2[-200:])
+            hdr = r"shell_request::<impl at crux_core/src/capability/shell_request\.rs:[\d: ]+>::request_from_shell"
+            m1 = re.search(r"^fn " + hdr + r"\(_1: &CapabilityContext<Op, Ev>[^\n]*\n(.*?)\n}\n", core_mir, re.M | re.S)
+            m2 = re.search(r"^fn " + hdr + r"::\{closure#0\}\(_1: \{closure@[^\n]*\n(.*?)\n}\n", core_mir, re.M | re.S)
+            if not m1 or not m2:
+                raise Unsupported("request_from_shell or its resolve callback not found")
+            c1 = re.findall(r"= ([^=\n]*?)\((?:move|copy|const|\))", m1.group(1))
+            c2 = re.findall(r"= ([^=\n]*?)\((?:move|copy|const|\))", m2.group(1))
+            down = [c for c in c1 if re.search(r"Arc::<std::sync::Mutex<shell_request::SharedState<.*>>>::downgrade$", c.strip())]
+            strong = [c for c in c1 if re.search(r"<Arc<std::sync::Mutex<shell_request::SharedState<.*>>> as Clone>::clone$", c.strip())]
+            up = [c for c in c2 if re.search(r"Weak::<std::sync::Mutex<shell_request::SharedState<.*>>>::upgrade$", c.strip())]
+            holds = len(down) == 1 and not strong and len(up) == 1
+            res["obligations"] += 1
+            res["queries"] += 1
+            res["decided"] += 1
+            sample["queries"].append({"obligation": "the callback stored in the request holds the shared state weakly (Arc::downgrade, no second strong handle; Weak::upgrade in the callback): "
+                                      "shared state -> send_request -> request -> callback is not a cycle, so a request future dropped before its first poll is freed", "holds": holds,
+                                      "downgrade": len(down), "strong_clones": len(strong), "upgrade": len(up)})
+            if holds:
+                res["discharged"] += 1
+                witnesses.add(f"{unit}: weak back-reference")
+            else:
+                cyc_failed = f"{unit}: the resolve callback holds the future's shared state strongly (downgrade={len(down)} strong clones={len(strong)} upgrade={len(up)}): a request future dropped before its first poll is never freed"
+        except (Unsupported, KeyError, IndexError, AttributeError, ValueError, TypeError) as u:
+            cyc_failed = f"{unit}: not in the shape the encoding knows ({type(u).__name__}: {str(u)[:120]})"
+            sample["encoder_gap"] = f"{type(u).__name__}: {u}"
+        res["samples"].append(sample)
+        say(f"  [{unit:>20}] weak back-reference: {cyc_failed is None}")
+
         dev, n = native(binp)
         res["validated_inputs"] = n
         res["notes"].append(f"native memory scenarios: {n}, deviations: {len(dev)}")
@@ -232,22 +268,35 @@ def run_property(prop, cfg, tier, known, only=None):
         os.makedirs(os.path.join(REPLAYS, prop), exist_ok=True)
         if not gone_ok and late:
             rp = os.path.join(REPLAYS, prop, f"legacytimer-{late[0][0]}.json")
-            json.dump({"property": prop, "engine": "mir", "module": "c13m", "scenario": late[0][0], "real": late[0][1], "expected": late[0][2], "obligations": [unit]}, open(rp, "w"), indent=1)
-            k = match_known(known, prop, unit, "finished-timer-id-never-evicted")
+            json.dump({"property": prop, "engine": "mir", "module": "c13m", "scenario": late[0][0], "real": late[0][1], "expected": late[0][2], "obligations": ["cleared_set_sites"]}, open(rp, "w"), indent=1)
+            k = match_known(known, prop, "cleared_set_sites", "finished-timer-id-never-evicted")
             if k:
                 say(f"KNOWN-FINDING: property={prop} {k['what']} [{late[0][0]}: {late[0][1]}]")
-                res["findings"].append({"known": True, "unit": unit, "desc": "finished-timer-id-never-evicted", "replay": rp})
+                res["findings"].append({"known": True, "unit": "cleared_set_sites", "desc": "finished-timer-id-never-evicted", "replay": rp})
             else:
                 say(f"VIOLATION property={prop} replay={rp}")
-                say(f"  {unit}: an id cleared after its timer finished is never evicted; scenario {late[0][0]}: the property demands `{late[0][2]}`, real code -> `{late[0][1]}`")
-                res["findings"].append({"known": False, "unit": unit, "desc": "finished-timer-id-never-evicted", "replay": rp})
+                say(f"  cleared_set_sites: an id cleared after its timer finished is never evicted; scenario {late[0][0]}: the property demands `{late[0][2]}`, real code -> `{late[0][1]}`")
+                res["findings"].append({"known": False, "unit": "cleared_set_sites", "desc": "finished-timer-id-never-evicted", "replay": rp})
                 state["code"] = EXIT_VIOLATION
         elif not gone_ok:
-            inconclusive(f"{unit}: no eviction site outside TimerFuture::poll on the MIR, but set-fire-clear does not grow natively")
+            inconclusive(f"cleared_set_sites: no eviction site outside TimerFuture::poll on the MIR, but set-fire-clear does not grow natively")
         elif late:
             dev += late
-        if n < 4:
+        if n < 5:
             inconclusive(f"native driver produced only {n} scenarios")
+        same = [d for d in dev if d[0] == "set-clear-same-update"]
+        dev = [d for d in dev if d[0] != "set-clear-same-update"]
+        if cyc_failed and same:
+            rp = os.path.join(REPLAYS, prop, f"legacytimer-{same[0][0]}.json")
+            json.dump({"property": prop, "engine": "mir", "module": "c13m", "scenario": same[0][0], "real": same[0][1], "expected": same[0][2], "obligations": [cyc_failed]}, open(rp, "w"), indent=1)
+            say(f"VIOLATION property={prop} replay={rp}")
+            say(f"  {cyc_failed[:240]}; scenario {same[0][0]}: the property demands `{same[0][2]}`, real code -> `{same[0][1]}`")
+            res["findings"].append({"known": False, "unit": "request_state_no_cycle", "desc": cyc_failed[:120], "replay": rp})
+            state["code"] = EXIT_VIOLATION
+        elif cyc_failed:
+            inconclusive(f"{cyc_failed[:200]} - but set-clear-same-update does not grow natively")
+        elif same:
+            dev += same
         if failed:
             if dev:
                 rp = os.path.join(REPLAYS, prop, f"legacytimer-{dev[0][0]}.json")
